@@ -4,6 +4,7 @@ use crate::case::hash_json;
 use crate::guard::{run_guarded, Guarded};
 use crate::runner::*;
 use proptest::prelude::*;
+use proptest::sample::select;
 use proptest::test_runner::{Config, RngSeed, TestCaseError, TestError, TestRunner};
 use raindb::fs::{FileSystem, TmpFileSystem};
 use raindb::{DbOptions, RainDBError, ReadOptions, WriteOptions, DB};
@@ -33,6 +34,48 @@ pub struct OwnerCase {
     pub rounds: Vec<Vec<TOp>>,
     pub threads: usize,
     pub small_memtable: bool,
+    /// holds of the background thread of whichever instance is running (fixed duration): a close
+    /// then finds a table compaction or an inline memtable flush in flight
+    #[serde(default)]
+    pub directives: Vec<crate::sched::Directive>,
+    /// every mutating filesystem call of a database background thread is delayed by this many
+    /// microseconds (a slow disk for the background work only): widens the window in which an
+    /// instance that gave up its lock too early is still writing
+    #[serde(default)]
+    pub bg_delay_us: u32,
+    /// WriteClose rewrites nine keys per thread instead of writing fresh keys (table compactions)
+    #[serde(default)]
+    pub overlap: bool,
+}
+
+/// Marks "a thread is inside a close" for the duration of a Close/WriteClose operation.
+struct ClosingMark(Option<Arc<std::sync::atomic::AtomicU64>>);
+
+impl ClosingMark {
+    fn new(c: &Arc<std::sync::atomic::AtomicU64>, active: bool) -> Self {
+        if active {
+            c.fetch_add(1, std::sync::atomic::Ordering::SeqCst);
+            ClosingMark(Some(c.clone()))
+        } else {
+            ClosingMark(None)
+        }
+    }
+}
+
+impl Drop for ClosingMark {
+    fn drop(&mut self) {
+        if let Some(c) = &self.0 {
+            c.fetch_sub(1, std::sync::atomic::Ordering::SeqCst);
+        }
+    }
+}
+
+struct SchedGuard;
+
+impl Drop for SchedGuard {
+    fn drop(&mut self) {
+        crate::sched::uninstall();
+    }
 }
 
 fn opts(fs: &Arc<dyn FileSystem>, small: bool) -> DbOptions {
@@ -71,16 +114,36 @@ pub struct OStats {
 type Activity = Arc<Mutex<Vec<(u64, std::thread::ThreadId, bool)>>>;
 
 pub fn run_case(case: &OwnerCase) -> Result<OStats, String> {
+    // one pseudo client that is never "done": holds last for their full duration
+    let _sched = if case.directives.is_empty() {
+        None
+    } else {
+        crate::sched::install(crate::sched::SchedState::new(case.directives.clone(), 1));
+        Some(SchedGuard)
+    };
     let tmp: Arc<dyn FileSystem> = Arc::new(TmpFileSystem::new(None));
     let watch = Arc::new(crate::faultfs::FaultFs::new(tmp));
     let clock = Arc::new(std::sync::atomic::AtomicU64::new(1));
     let activity: Activity = Arc::new(Mutex::new(vec![]));
+    // thread id -> stamp of its latest successful lock_file
+    let locked_at: Arc<Mutex<std::collections::HashMap<String, u64>>> = Arc::new(Mutex::new(std::collections::HashMap::new()));
     {
         let (clock, activity) = (clock.clone(), activity.clone());
+        let bg_delay = case.bg_delay_us as u64;
+        let locked_at = locked_at.clone();
         *watch.ctl.observer.lock().unwrap() = Some(Arc::new(move |kind: &'static str| {
+            if kind == "locked" {
+                // the moment a thread acquired the database lock (open or destroy)
+                let s = clock.fetch_add(1, std::sync::atomic::Ordering::SeqCst);
+                locked_at.lock().unwrap().insert(format!("{:?}", std::thread::current().id()), s);
+                return;
+            }
             if matches!(kind, "create" | "write" | "append" | "rename" | "remove") {
                 let t = std::thread::current();
                 let worker = t.name().map_or(false, |n| n.starts_with("raindb-"));
+                if worker && bg_delay > 0 {
+                    std::thread::sleep(std::time::Duration::from_micros(bg_delay));
+                }
                 let s = clock.fetch_add(1, std::sync::atomic::Ordering::SeqCst);
                 activity.lock().unwrap().push((s, t.id(), worker));
             }
@@ -95,10 +158,11 @@ pub fn run_case(case: &OwnerCase) -> Result<OStats, String> {
     let log: Arc<Mutex<Vec<Vec<Res>>>> = Arc::new(Mutex::new(vec![vec![Res::None; n]; rounds]));
     let model: Arc<Mutex<BTreeMap<Vec<u8>, Vec<u8>>>> = Arc::new(Mutex::new(BTreeMap::new()));
     let errors: Arc<Mutex<Vec<String>>> = Arc::new(Mutex::new(vec![]));
+    let closing = Arc::new(std::sync::atomic::AtomicU64::new(0));
     let mut handles = vec![];
     for t in 0..n {
-        let (fs, barrier, log, model, errors, case, clock, opens_ok) =
-            (fs.clone(), barrier.clone(), log.clone(), model.clone(), errors.clone(), case.clone(), clock.clone(), opens_ok.clone());
+        let (fs, barrier, log, model, errors, case, clock, opens_ok, closing, locked_at) =
+            (fs.clone(), barrier.clone(), log.clone(), model.clone(), errors.clone(), case.clone(), clock.clone(), opens_ok.clone(), closing.clone(), locked_at.clone());
         handles.push(std::thread::Builder::new().name(format!("owner-{t}")).spawn(move || {
             let mut db: Option<DB> = None;
             let mut wrote = 0u64;
@@ -112,14 +176,35 @@ pub fn run_case(case: &OwnerCase) -> Result<OStats, String> {
                         let t0 = std::time::Instant::now();
                         let mut s0 = clock.fetch_add(1, std::sync::atomic::Ordering::SeqCst);
                         let mut r_ = DB::open(opts(&fs, case.small_memtable));
-                        while r_.is_err() && op == TOp::OpenRetry && t0.elapsed() < std::time::Duration::from_millis(25) {
+                        // keep trying for 25 ms, and for as long as some thread is still inside a close
+                        // of this round (held or slowed-down background work can make a close long)
+                        let mut waited_for_close = false;
+                        while r_.is_err() && op == TOp::OpenRetry {
+                            let el = t0.elapsed();
+                            let someone_closing = closing.load(std::sync::atomic::Ordering::SeqCst) > 0;
+                            if el >= std::time::Duration::from_millis(25) && !(someone_closing && el < std::time::Duration::from_secs(3)) {
+                                if waited_for_close {
+                                    // one last attempt after the close has returned
+                                    waited_for_close = false;
+                                } else {
+                                    break;
+                                }
+                            } else if someone_closing {
+                                waited_for_close = true;
+                            }
+                            if el >= std::time::Duration::from_millis(25) {
+                                // every attempt spawns a background thread: do not spin through a long close
+                                std::thread::sleep(std::time::Duration::from_micros(300));
+                            }
                             std::thread::yield_now();
                             s0 = clock.fetch_add(1, std::sync::atomic::Ordering::SeqCst);
                             r_ = DB::open(opts(&fs, case.small_memtable));
                         }
                         let s1 = clock.fetch_add(1, std::sync::atomic::Ordering::SeqCst);
                         if r_.is_ok() {
-                            opens_ok.lock().unwrap().push((s0, s1, r, t));
+                            // from the moment this open held the lock, nobody else may touch the directory
+                            let s_lock = locked_at.lock().unwrap().get(&format!("{:?}", std::thread::current().id())).copied().filter(|s| *s > s0).unwrap_or(s1);
+                            opens_ok.lock().unwrap().push((s0, s_lock, r, t));
                         }
                         r_
                     } {
@@ -134,6 +219,7 @@ pub fn run_case(case: &OwnerCase) -> Result<OStats, String> {
                         Err(e) => Res::OpenErr(format!("{e:?}")),
                     },
                     TOp::Close => {
+                        let _closing = ClosingMark::new(&closing, db.is_some());
                         if db.take().is_some() {
                             Res::Closed
                         } else {
@@ -164,10 +250,26 @@ pub fn run_case(case: &OwnerCase) -> Result<OStats, String> {
                         }
                     }
                     TOp::WriteClose => {
+                        let _closing = ClosingMark::new(&closing, db.is_some());
                         if let Some(d) = db.take() {
-                            for i in 0..40u64 {
+                            let picked0 = raindb::verif::counter(raindb::verif::Counter::SizeCompaction);
+                            let n_puts = if case.overlap { 60u64 } else { 40 };
+                            for i in 0..n_puts {
                                 wrote += 1;
-                                let k = format!("t{t}-{wrote:05}").into_bytes();
+                                // overlapping mode rewrites a small set of keys, so that the flushed
+                                // files overlap, pile up in level 0 and table compactions run
+                                let k = if case.overlap { format!("t{t}-{:05}", wrote % 9) } else { format!("t{t}-{wrote:05}") }.into_bytes();
+                                if case.overlap && i + 14 == n_puts {
+                                    // let the background thread catch up with the flushes and start a
+                                    // table compaction; the remaining writes and the close then
+                                    // happen while that compaction runs (affects the schedule only)
+                                    let t0 = std::time::Instant::now();
+                                    while raindb::verif::counter(raindb::verif::Counter::SizeCompaction) == picked0
+                                        && t0.elapsed() < std::time::Duration::from_millis(150)
+                                    {
+                                        std::thread::sleep(std::time::Duration::from_micros(200));
+                                    }
+                                }
                                 let v = format!("value-{t}-{wrote}-{}", "y".repeat(60 + (i % 7) as usize * 10)).into_bytes();
                                 match d.put(WriteOptions::default(), k.clone(), v.clone()) {
                                     Ok(()) => {
@@ -372,12 +474,34 @@ fn strategy() -> BoxedStrategy<OwnerCase> {
                 2 => Just(TOp::WriteClose),
                 2 => Just(TOp::Nop),
             ];
-            (prop::collection::vec(prop::collection::vec(op, n), 2..9), Just(n), any::<bool>(), 0u8..3, 0usize..6)
+            let hold = (select(vec!["compaction.step", "compaction.step", "flush.before_build", "manifest.before_append"]), 0u32..8, 3u32..16, select(vec![0u32, 0, 3, 6]))
+                .prop_map(|(p, nth, max_hold_ms, every)| crate::sched::Directive { role: -1, point: p.to_string(), nth, max_hold_ms, linger_ms: 0, every });
+            let holds = prop_oneof![Just(vec![]), prop::collection::vec(hold, 1..5)];
+            let delay = select(vec![0u32, 0, 0, 0, 200, 1000, 3000]);
+            (prop::collection::vec(prop::collection::vec(op, n), 2..9), Just(n), (any::<bool>(), holds, delay, prop::bool::weighted(0.4)), 0u8..4, 0usize..6)
         })
-        .prop_map(|(mut rounds, threads, small_memtable, pattern, who)| {
-            // structured tail (2 of 3 cases): somebody creates and closes a database, then one thread
+        .prop_map(|(mut rounds, threads, (small_memtable, mut directives, mut bg_delay_us, mut overlap), pattern, who)| {
+            // structured tail (1 of 4 cases): an owner writes until table compactions with inline
+            // memtable flushes are running (slowed-down, periodically held background thread) and
+            // closes at once while all other threads keep trying to open the database
+            if pattern == 3 {
+                let w = who % threads;
+                let mut open = vec![TOp::Nop; threads];
+                open[w] = TOp::Open;
+                let mut race = vec![TOp::OpenRetry; threads];
+                race[w] = TOp::WriteClose;
+                rounds.push(vec![TOp::Close; threads]);
+                rounds.push(open);
+                rounds.push(race);
+                rounds.push(vec![TOp::Write; threads]);
+                rounds.push(vec![TOp::Close; threads]);
+                overlap = true;
+                bg_delay_us = bg_delay_us.max(1000);
+                directives.push(crate::sched::Directive { role: -1, point: "compaction.step".into(), nth: (who % 3) as u32, max_hold_ms: 8, linger_ms: 0, every: 3 });
+            }
+            // structured tail (2 of 4 cases): somebody creates and closes a database, then one thread
             // destroys it while all others keep trying to open it, and everybody closes again
-            if pattern > 0 {
+            if pattern == 1 || pattern == 2 {
                 let w = who % threads;
                 let mut open = vec![TOp::Nop; threads];
                 open[w] = TOp::Open;
@@ -392,7 +516,7 @@ fn strategy() -> BoxedStrategy<OwnerCase> {
                 rounds.push(vec![TOp::Write; threads]);
                 rounds.push(vec![TOp::Close; threads]);
             }
-            OwnerCase { rounds, threads, small_memtable }
+            OwnerCase { rounds, threads, small_memtable: small_memtable || !directives.is_empty() || bg_delay_us > 0, directives, bg_delay_us, overlap }
         })
         .boxed()
 }
@@ -415,7 +539,7 @@ fn guarded(case: &OwnerCase) -> Outcome {
 
 pub fn worker(ctx: &WorkerCtx) -> WorkerResult {
     let cases = match ctx.tier {
-        Tier::Quick => 8000u64,
+        Tier::Quick => 4000u64,
         Tier::Thorough => 20_000,
     };
     let cases = std::env::var("VERIF_CASES").ok().and_then(|s| s.parse().ok()).unwrap_or(cases);
